@@ -301,6 +301,10 @@ def known_finding_witnesses(sc):
     pkg.imports.append(imp)
     pkg.defs.append({"kind": "protocol", "name": "P", "steps": [("a", ("named", "Kf2Imp.A", []), False)]})
     yield Job("witness:inline-union-in-imported-alias", sc.path("kf-import"), pkg=pkg, manifest_extra=OPTION_SETS[4][1], namespace="Kf2")
+    pkg = modelgen.Package("Kf4")
+    pkg.defs.append({"kind": "record", "name": "R", "tparams": [], "fields": [("flags", ("vec", P("bool"), None))]})
+    pkg.defs.append({"kind": "protocol", "name": "P", "steps": [("a", ("named", "R", []), False), ("bits", P("bool"), True)]})
+    yield Job("witness:vector-of-bool", sc.path("kf-vbool"), pkg=pkg, manifest_extra=OPTION_SETS[1][1], compile_cpp=True, ndjson=False, namespace="Kf4")
     pkg = modelgen.Package("Kf3")
     pkg.defs.append({"kind": "record", "name": "G", "tparams": ["T"], "fields": [("a", ("arr", ("arr", ("opt", ("tparam", "T")), ("fixed", [2], None)), ("rank", 1, None)))]})
     pkg.defs.append({"kind": "protocol", "name": "P", "steps": [("a", ("vec", ("named", "G", [P("int32")]), None), False)]})
@@ -438,7 +442,11 @@ def judge(report, j, res, seed):
     cpp = res.get("cpp")
     if cpp is not None:
         report.count("cpp.compiled")
-        if not cpp["ok"]:
+        first_err = next((ln for ln in cpp["log"].splitlines() if "error:" in ln), "")
+        if not cpp["ok"] and re.search(r"std::vector<bool|'bool&' to an rvalue of type 'bool'", first_err):
+            # the first error is about a sequence of bool (std::vector<bool> has no data() and hands out proxies, not bool&)
+            report.violation("cpp:vector-of-bool", dict(replay, output=cpp["log"]), "the generated C++ does not compile as C++17")
+        elif not cpp["ok"]:
             report.violation(f"cpp:{_sig(cpp['log'])}" + (":" + j.kind if j.kind.startswith(("names:namespace", "init:")) else ""), dict(replay, output=cpp["log"]), "the generated C++ does not compile as C++17")
 
 
